@@ -167,6 +167,7 @@ var c13picked = []struct {
 	{"adapter", "oneway", "afterstalledwrite", []int{20, 250}, []int{1, 5, 20, 50, 100, 250, 500, 1000}},
 	{"adapter", "request", "afterstalledflush", []int{50}, []int{1, 5, 20, 50, 100, 250, 500, 1000}},
 	{"adapter", "oneway", "afterstalledflush", nil, []int{1, 5, 20, 50, 100, 250, 500, 1000}},
+	{"adapter", "request", "latehandoff", []int{20, 100}, []int{2, 5, 20, 50, 100, 250, 500}},
 	{"nats", "request", "closedpending", []int{100, 400}, []int{20, 50, 100, 250, 400, 1000}},
 	{"nats", "request", "brokerlost", []int{100, 400}, []int{20, 50, 100, 250, 400, 1000}},
 }
@@ -387,7 +388,7 @@ func runC13(tier string, args []string) int {
 		os.Setenv("VERIF_OUT", ev.ScratchDir()) // a replay never overwrites the committed evidence
 	}
 	run := ev.New("C13", tier, "exploration")
-	run.Rule("case = (transport, timeout T, peer stall pattern, Request|Oneway); adapter over a scripted TTransport (silent, response late by T+50ms / 2T / 2T+400ms, Write blocked for 5T or for good, Flush blocked with and without honouring ctx, underlying Open() stalled for 5T / for good while the call is issued), NATS on an embedded broker (subscriber that never replies, or replies late, or the client-broker TCP connection black-holed by a proxy after a healthy control request), or PublishRequest refused by a 4 KiB max_payload broker followed by a request reusing the FContext), a second call issued while the send of an earlier call on the same transport is still stalled, the transport closed / the broker connection cut T/4 into a pending call, N concurrent callers x K short-timeout requests on one transport against a peer answering each T+3ms late (slowest call of the burst is what is timed), HTTP against httptest (handler answering late, never, stalling the body, or stalling d<T then closing the connection unanswered and staying silent on any further connection - bound T+300ms flat there; http.Client without and with a Timeout of its own above / below T); each case attempted 3 times on fresh transports, minimum elapsed compared with T+max(300ms,T); distinct = (transport, op, pattern, T)")
+	run.Rule("case = (transport, timeout T, peer stall pattern, Request|Oneway); adapter over a scripted TTransport (silent, response late by T+50ms / 2T / 2T+400ms, Write blocked for 5T or for good, Flush blocked with and without honouring ctx, underlying Open() stalled for 5T / for good while the call is issued), NATS on an embedded broker (subscriber that never replies, or replies late, or the client-broker TCP connection black-holed by a proxy after a healthy control request), or PublishRequest refused by a 4 KiB max_payload broker followed by a request reusing the FContext), a second call issued while the send of an earlier call on the same transport is still stalled, the transport closed / the broker connection cut T/4 into a pending call, the inbound reader held between registry lookup and delivery of call A's answer while A times out and a fresh call B (silent peer) is issued from the same goroutine (B must time out, never see a response), N concurrent callers x K short-timeout requests on one transport against a peer answering each T+3ms late (slowest call of the burst is what is timed), HTTP against httptest (handler answering late, never, stalling the body, or stalling d<T then closing the connection unanswered and staying silent on any further connection - bound T+300ms flat there; http.Client without and with a Timeout of its own above / below T); each case attempted 3 times on fresh transports, minimum elapsed compared with T+max(300ms,T); distinct = (transport, op, pattern, T)")
 	run.Assume("monotonic clock of the Go runtime; a delay present in all 3 attempts of a case is attributed to the code, not to scheduling")
 	run.Assume("rig.ScriptTransport, the embedded nats-server and net/http/httptest behave as scripted")
 	run.Assume("goroutine ids parsed from runtime.Stack identify the calling goroutine in the full dump")
@@ -397,6 +398,7 @@ func runC13(tier string, args []string) int {
 		st.mu.Lock()
 		st.hooks[point]++
 		st.mu.Unlock()
+		c13gate.hook(point, opid)
 	})
 	defer frugal.VerifSetHook(nil)
 
@@ -550,6 +552,8 @@ func runCase(env *c13env, c c13case, body func() []byte) caseResult {
 		case "adapter":
 			if strings.HasPrefix(c.Pattern, "stallconnect:") {
 				a = attemptAdapterStalledConnect(c, body())
+			} else if c.Pattern == "latehandoff" {
+				a = attemptAdapterLateHandoff(c, body())
 			} else if strings.HasPrefix(c.Pattern, "afterstalled") {
 				a = attemptAdapterAfterStalledSend(c, body())
 			} else {
